@@ -25,6 +25,7 @@ type world struct {
 	left    int
 	allKeys []*signer
 	wide    []*signer // RSA keys inside the limits with an exponent crypto/rsa refuses, able to sign
+	shapes  int       // how many leading entries of the last variants() list are signature shapes
 }
 
 var rsaSizesQuick = []int{512, 1023, 1024, 1025, 2048, 4096, 4097}
@@ -785,7 +786,13 @@ func tamper(r *vlib.R, sig []byte, n *big.Int) [][]byte {
 	}
 	flip := append([]byte(nil), sig...)
 	flip[r.Intn(len(flip))] ^= 1 << uint(r.Intn(8))
-	out = append(out, flip, sig[:len(sig)-1], sig[1:], append([]byte{0}, sig...), append(append([]byte(nil), sig...), 0), nil)
+	cp := func() []byte { return append([]byte(nil), sig...) }
+	half := len(sig) / 2
+	out = append(out, flip, sig[:len(sig)-1], sig[1:], append([]byte{0}, sig...), append(cp(), 0), nil,
+		append(cp(), r.Bytes(1+r.Intn(8))...), // a valid signature followed by extra octets
+		append(cp(), sig...),                  // ... or by itself
+		append(append([]byte(nil), sig[half:]...), sig[:half]...), // halves swapped
+		sig[:half])
 	if n != nil {
 		k := (n.BitLen() + 7) / 8
 		// same residue, not below the modulus
@@ -1125,19 +1132,22 @@ func (w *world) variants(c vcase, raw []byte, s *signer) []vcase {
 	if s.kind == "rsa" {
 		n = s.mod.n
 	}
-	// signature material
+	// signature material: every shape, always (the first `shapes` variants are all emitted)
 	for _, t := range tamper(r, raw, n)[1:] {
-		if r.Chance(1, 2) {
-			t := t
-			add(func(v *vcase) { v.sig.Signature = b64(t) })
-		}
+		t := t
+		add(func(v *vcase) { v.sig.Signature = b64(t) })
 	}
 	if s.kind == "ecdsa" && len(raw) == 2*s.size { // leading zeros on r and s: the library splits in half and accepts
 		z := append(append(append([]byte{0}, raw[:s.size]...), 0), raw[s.size:]...)
 		add(func(v *vcase) { v.sig.Signature = b64(z) })
 		zz := append(append(append([]byte{0, 0}, raw[:s.size]...), 0, 0), raw[s.size:]...)
 		add(func(v *vcase) { v.sig.Signature = b64(zz) })
+		// zero-padded r and s followed by extra octets; trailing zeros on each half
+		add(func(v *vcase) { v.sig.Signature = b64(append(append([]byte(nil), z...), r.Bytes(2)...)) })
+		tz := append(append(append(append([]byte(nil), raw[:s.size]...), 0), raw[s.size:]...), 0)
+		add(func(v *vcase) { v.sig.Signature = b64(tz) })
 	}
+	w.shapes = len(out)
 	add(func(v *vcase) { v.sig.Signature = wrap(r, v.sig.Signature) })
 	add(func(v *vcase) { v.sig.Signature = mangle(r, v.sig.Signature) })
 	// RRset: order, duplicates, case, TTLs, content
@@ -1232,8 +1242,15 @@ func (w *world) genVerify() {
 	}
 	w.out(c.line())
 	vs := w.variants(c, raw, s)
+	big := s.kind == "rsa" && s.mod.bits >= 4096
+	for _, v := range vs[:w.shapes] {
+		if !big || r.Chance(1, 3) {
+			w.out(v.line())
+		}
+	}
+	vs = vs[w.shapes:]
 	budget := 5
-	if s.kind == "rsa" && s.mod.bits >= 4096 {
+	if big {
 		budget = 3
 	}
 	for i := 0; i < budget && len(vs) > 0; i++ {
@@ -1339,27 +1356,27 @@ func gen(r *vlib.R, n int, tier string, emit func(string)) {
 	w.sweeps()
 	for w.left > 0 {
 		switch k := r.Intn(100); {
-		case k < 16:
+		case k < 20:
 			w.genKeyTag()
-		case k < 22:
+		case k < 26:
 			w.genB64()
-		case k < 24:
+		case k < 28:
 			w.genOversized()
-		case k < 32:
+		case k < 36:
 			w.genDS()
-		case k < 40:
+		case k < 43:
 			w.genVerifyDS()
-		case k < 44:
+		case k < 49:
 			w.genRSAParse()
-		case k < 48:
+		case k < 53:
 			w.genRSAUsable()
-		case k < 56:
+		case k < 60:
 			w.genRSARaw()
-		case k < 62:
+		case k < 67:
 			w.genRSAVerify()
-		case k < 73:
+		case k < 82:
 			w.genSignedData()
-		case k < 76:
+		case k < 87:
 			w.genBind()
 		default:
 			w.genVerify()
